@@ -137,7 +137,9 @@ pub(crate) fn is_plain_safe(s: &str) -> bool {
         return false;
     }
     let bytes = s.as_bytes();
-    if bytes[0].is_ascii_whitespace() {
+    // Leading white space is not part of a plain scalar, and neither is a trailing space:
+    // the reader would drop it.
+    if bytes[0].is_ascii_whitespace() || s.ends_with(' ') {
         return false;
     }
 
@@ -176,7 +178,9 @@ pub(crate) fn is_plain_value_safe(s: &str, yaml_12: bool, in_flow: bool) -> bool
     }
 
     let bytes = s.as_bytes();
-    if bytes[0].is_ascii_whitespace() {
+    // Leading white space is not part of a plain scalar, and neither is a trailing space:
+    // the reader would drop it.
+    if bytes[0].is_ascii_whitespace() || s.ends_with(' ') {
         return false;
     }
 
